@@ -205,6 +205,63 @@ fn tl_c04_enum(args: &Args, rep: &mut Report, max_hooks: usize, max_idle: usize)
     let _ = rep.extra.set("exhaustive_scope", format!("outcome tree of one get(): 0..={} hooks per kind (async / sync / mixed), 0..={} idle objects, both queue modes; outcomes per callback: ok, error, panic, and (async) caller gives up while suspended", max_hooks, max_idle));
 }
 
+/// C10: the complete table of directed timeout scenarios on the virtual clock.
+fn tl_c10_table(args: &Args, rep: &mut Report) {
+    let scns = Arc::new(tl::c10::scenarios());
+    let n = scns.len() as u64;
+    let s2 = scns.clone();
+    run_cases(args, rep, "tl_c10_table", "C10/tl_c10".to_string(), n, move |rt, idx, log| {
+        let s = &s2[idx as usize];
+        let o = tl::c10::run_scn(rt, s, log);
+        let j = if log {
+            let mut j = tl::run::case_json("tl_c10", "C10", 0, idx, &o, if o.violations.is_empty() { 60 } else { 100000 });
+            let _ = j.set("scenario", s.sig());
+            j
+        } else {
+            Json::Null
+        };
+        let mut c: Case = (o, j).into();
+        // the scenario itself is the identity of the case
+        c.hash = vh_common::fnv1a(s.sig().as_bytes());
+        c
+    });
+    let (nb, bad) = tl::c10::build_table();
+    let cov = rep.engine("build_table");
+    cov.evaluations += nb;
+    cov.events += nb;
+    for i in 0..nb {
+        let _ = cov.distinct.insert(i);
+        let _ = cov.nontrivial.insert(i);
+    }
+    cov.sample(Json::from("build() for runtime x (wait, create, recycle) in {none, zero, finite}^3: refused exactly when a timeout is set without runtime"));
+    let mut fs = Vec::new();
+    for b in bad {
+        fs.push(Finding { v: vh_common::Violation { prop: "C10", oracle: "build_table", msg: b.clone() }, sig: "C10/build_table".into(), replay: Json::obj().with("engine", "build_table").with("message", b) });
+    }
+    rep.add_findings(fs);
+    // unmanaged pool
+    let rt = tl::run::new_runtime();
+    let mut fs = Vec::new();
+    let table = utl::c10_table(&rt, true);
+    let cov = rep.engine("uc10_table");
+    for (sig, log, v) in table {
+        cov.evaluations += 1;
+        cov.events += log.len() as u64;
+        let h = vh_common::fnv1a(sig.as_bytes());
+        let _ = cov.distinct.insert(h);
+        let _ = cov.nontrivial.insert(h);
+        if sig.contains("finite") && sig.contains("before") {
+            cov.sample(Json::obj().with("scenario", sig.as_str()).with("log", log.iter().map(|s| Json::from(s.as_str())).collect::<Vec<_>>()));
+        }
+        if let Some(v) = v {
+            fs.push(Finding { sig: format!("C10/uc10/{}/{}", v.oracle, sig), v, replay: Json::obj().with("engine", "uc10_table").with("scenario", sig.as_str()).with("log", log.iter().map(|s| Json::from(s.as_str())).collect::<Vec<_>>()) });
+        }
+    }
+    rep.add_findings(fs);
+    rep.exhaustive = Some(true);
+    let _ = rep.extra.set("exhaustive_scope", "managed: runtime x per-call (wait, create, recycle) in {none, zero, finite}^3 x slot freed {immediately, before, at, after the deadline, never} x {create path, recycle path} x step finishes {immediately, before, at, after its deadline, never}; build() x runtime x {none, zero, finite}^3; unmanaged: runtime x timeout {none, zero, finite} x {timeout_get, configured} x object available {immediately, before, at, after the deadline, never}");
+}
+
 fn utl_random(args: &Args, rep: &mut Report, prop: &'static str, n: u64) {
     let p = utl::uprofile_for(prop);
     let seed = args.seed;
@@ -491,6 +548,9 @@ fn main() {
             }
         }
         "C10" => {
+            if args.engine_enabled("tl_c10") {
+                tl_c10_table(&args, &mut rep);
+            }
             if args.engine_enabled("tl") {
                 tl_random(&args, &mut rep, prop, sc(10_000.0, 300_000.0));
             }
@@ -533,6 +593,11 @@ fn replay(args: &Args) {
         }
         "tl_c03" => {
             let out = tl::c03::run_case(&rt, seed, idx, true);
+            (out.log, out.violations)
+        }
+        "tl_c10" => {
+            let s = tl::c10::scenarios()[idx as usize];
+            let out = tl::c10::run_scn(&rt, &s, true);
             (out.log, out.violations)
         }
         "tl_c04" => {
